@@ -26,4 +26,5 @@ def run(prog, rep, tier):
     import r_order
     apply(rep, "O7", "units compare equal exactly when they are the same unit (`unit` of a DIE is the unit that lists it, also across a file and its alt file)", r_order.o7(prog), 2)
     rep.notes.append("exemption: op_cooked_die::operate (reason in rules/r_dw.py I1_EXEMPT)")
+    apply(rep, "M3", "`child` walks the children with every import inlined in place and hands each DIE the chain of the import DIEs it was reached through (die_it_producer with import_partial_units / drop_finished_imports interpreted on an abstract forest: imports first, in the middle, last, nested, repeated, of a compile unit)", r_dw.m3(prog), 2)
     maybe_mutants("C05", rep, tier)
